@@ -74,11 +74,56 @@ def opPackRule (req : Json) : Except String Json := do
   | .ok out => pure (okJson (.arr (out.map ofStr).toArray))
   | .error e => pure (errJson e)
 
+/-- `[[k, v], ...]` → association list -/
+def pairs (j : Json) : Except String (List (Json × Json)) := do
+  let xs ← arr j
+  xs.mapM (fun x => do
+    match x with
+    | .arr #[k, v] => pure (k, v)
+    | _ => throw "expected [k, v]")
+
+def hashRecOf (j : Json) : Except String HashRec := do
+  (← pairs j).mapM (fun (k, v) => do pure ((← toStr k), (← toStr v)))
+
+def artifactsOf (j : Json) : Except String Artifacts := do
+  (← pairs j).mapM (fun (k, v) => do pure ((← toStr k), (← hashRecOf v)))
+
+def linkArtsOf (j : Json) : Except String LinkArts := do
+  pure { materials := ← artifactsOf (← field j "materials"),
+         products := ← artifactsOf (← field j "products") }
+
+def strList (j : Json) : Except String (List Str) := do (← arr j).mapM toStr
+
+def destTypeOf (j : Json) : Except String DestType := do
+  match destTypeOfKeyword (← toStr j) with
+  | some t => pure t
+  | none => throw "bad type"
+
+def sortStrs (l : List Str) : List Str :=
+  (l.map String.ofList).mergeSort (fun a b => a ≤ b) |>.map String.toList
+
+def opGlob (req : Json) : Except String Json := do
+  let pat ← toStr (← field req "pat")
+  let names ← strList (← field req "names")
+  let toks := Glob.parse pat
+  pure (okJson (.arr (names.map (fun n => Json.bool (Glob.matchToks toks n))).toArray))
+
+def opItemRules (req : Json) : Except String Json := do
+  let name ← toStr (← field req "name")
+  let ty ← destTypeOf (← field req "type")
+  let rules ← (← arr (← field req "rules")).mapM strList
+  let links ← (← pairs (← field req "links")).mapM (fun (k, v) => do pure ((← toStr k), (← linkArtsOf v)))
+  match verifyItemRules Glob.fnmatch name ty rules links with
+  | .ok q => pure (okJson (.arr ((sortStrs q).map ofStr).toArray))
+  | .error e => pure (errJson e)
+
 def dispatch (op : String) (req : Json) : Except String Json :=
   match op with
   | "ping" => pure (okJson (.str "pong"))
   | "unpack_rule" => opUnpackRule req
   | "pack_rule" => opPackRule req
+  | "glob" => opGlob req
+  | "item_rules" => opItemRules req
   | _ => throw s!"unknown op {op}"
 
 def handle (line : String) : String :=
